@@ -481,10 +481,16 @@ func (vc *VC) appendOp(st *State, sliceT types.Type, s, t T) T {
 		srcT := func(i string) string {
 			return applyChain(l.chain, app("eaddr", app("sarr", t.S), addS(app("soff", t.S), i)))
 		}
-		vc.assume(st, fmt.Sprintf("(forall ((i Int)) (! (=> (and (<= 0 i) (< i %s)) (= (select %s %s) (select %s %s))) :pattern ((select %s %s))))",
-			app("slen", s.S), nn, dst("i"), o, srcS("i"), nn, dst("i")))
-		vc.assume(st, fmt.Sprintf("(forall ((i Int)) (! (=> (and (<= 0 i) (< i %s)) (= (select %s %s) (select %s %s))) :pattern ((select %s %s))))",
-			n, nn, dst(app("+", app("slen", s.S), "i")), o, srcT("i"), nn, dst(app("+", app("slen", s.S), "i"))))
+		// copied part and appended part, quantified over cell addresses
+		// (patterns without arithmetic)
+		{
+			inv := invChain(l.chain, "a")
+			idx := app("-", app("eaddr_idx", inv), app("soff", r.S)) // index within r
+			vc.assume(st, fmt.Sprintf("(forall ((a Int)) (! (=> %s (= (select %s a) (select %s %s))) :pattern ((select %s a))))",
+				cellIn(l.chain, "a", app("sarr", r.S), app("soff", r.S), addS(app("soff", r.S), app("slen", s.S))), nn, o, srcS(idx), nn))
+			vc.assume(st, fmt.Sprintf("(forall ((a Int)) (! (=> %s (= (select %s a) (select %s %s))) :pattern ((select %s a))))",
+				cellIn(l.chain, "a", app("sarr", r.S), addS(app("soff", r.S), app("slen", s.S)), addS(app("soff", r.S), newLen)), nn, o, srcT(app("-", idx, app("slen", s.S))), nn))
+		}
 		// small constant appends: instantiate explicitly (helps all solvers)
 		if isNumeral(simplifyLen(n)) {
 			var k int
@@ -536,12 +542,16 @@ func (vc *VC) copyOp(st *State, dstT types.Type, d, s T, srcT types.Type) T {
 	elem := dstT.Underlying().(*types.Slice).Elem()
 	for _, l := range vc.leaves(elem) {
 		o, nn := vc.newVersion(st, l.key)
-		dst := applyChain(l.chain, app("eaddr", app("sarr", d.S), addS(app("soff", d.S), "i")))
-		if s.Sort == SStr {
-			vc.assume(st, fmt.Sprintf("(forall ((i Int)) (! (=> (and (<= 0 i) (< i %s)) (= (select %s %s) (str_at %s i))) :pattern ((select %s %s))))", n.S, nn, dst, s.S, nn, dst))
-		} else {
-			src := applyChain(l.chain, app("eaddr", app("sarr", s.S), addS(app("soff", s.S), "i")))
-			vc.assume(st, fmt.Sprintf("(forall ((i Int)) (! (=> (and (<= 0 i) (< i %s)) (= (select %s %s) (select %s %s))) :pattern ((select %s %s))))", n.S, nn, dst, o, src, nn, dst))
+		{
+			inv := invChain(l.chain, "a")
+			idx := app("-", app("eaddr_idx", inv), app("soff", d.S))
+			in := cellIn(l.chain, "a", app("sarr", d.S), app("soff", d.S), addS(app("soff", d.S), n.S))
+			if s.Sort == SStr {
+				vc.assume(st, fmt.Sprintf("(forall ((a Int)) (! (=> %s (= (select %s a) (str_at %s %s))) :pattern ((select %s a))))", in, nn, s.S, idx, nn))
+			} else {
+				src := applyChain(l.chain, app("eaddr", app("sarr", s.S), addS(app("soff", s.S), idx)))
+				vc.assume(st, fmt.Sprintf("(forall ((a Int)) (! (=> %s (= (select %s a) (select %s %s))) :pattern ((select %s a))))", in, nn, o, src, nn))
+			}
 		}
 		vc.assume(st, fmt.Sprintf("(forall ((a Int)) (! (=> (not %s) (= (select %s a) (select %s a))) :pattern ((select %s a))))",
 			cellIn(l.chain, "a", app("sarr", d.S), app("soff", d.S), addS(app("soff", d.S), n.S)), nn, o, nn))
